@@ -356,6 +356,60 @@ func (e *Engine) lookupVar(st *State, fr *Frame, name string, at *ssa.BasicBlock
 			}
 		}
 	}
+	// phi of an enclosing loop: the closest dominating block that has a phi for this variable
+	if at != nil {
+		var bestPhi *ssa.Phi
+		for _, b := range fn.Blocks {
+			if b == at || !b.Dominates(at) {
+				continue
+			}
+			for _, in := range b.Instrs {
+				p, ok := in.(*ssa.Phi)
+				if !ok {
+					break
+				}
+				if p.Comment != name {
+					continue
+				}
+				if _, have := fr.regs[p]; !have {
+					continue
+				}
+				if bestPhi == nil || bestPhi.Block().Dominates(b) {
+					bestPhi = p
+				}
+			}
+		}
+		if bestPhi != nil {
+			// a later plain definition that dominates `at` and is dominated by the phi's block wins (handled below by
+			// the DebugRef search) only if it is not a constant initialiser
+			phiVal := fr.regs[bestPhi]
+			var later *ssa.DebugRef
+			for _, b := range fn.Blocks {
+				if !(b == at || b.Dominates(at)) || !bestPhi.Block().Dominates(b) || b == bestPhi.Block() {
+					continue
+				}
+				for _, in := range b.Instrs {
+					d, ok := in.(*ssa.DebugRef)
+					if !ok || d.IsAddr {
+						continue
+					}
+					id, ok := d.Expr.(*ast.Ident)
+					if !ok || id.Name != name {
+						continue
+					}
+					if _, isConst := d.X.(*ssa.Const); isConst {
+						continue
+					}
+					if _, have := fr.regs[d.X]; have {
+						later = d
+					}
+				}
+			}
+			if later == nil {
+				return phiVal, true
+			}
+		}
+	}
 	// DebugRefs: choose the dominating definition closest to `at`
 	var best *ssa.DebugRef
 	for _, b := range fn.Blocks {
@@ -1021,6 +1075,13 @@ func (e *Engine) evalCall(c *evalCtx, n *ECall) Val {
 		}
 		recv := e.eval(c, sel.X)
 		return e.evalMethod(c, recv, sel.Name, n.Args)
+	}
+	// conversion written with a type literal: []byte(x), map[K]V(x)
+	if ty, ok := n.Fun.(*EType); ok && len(n.Args) == 1 {
+		if T := e.resolveType(ty.T, c.pkg); T != nil {
+			v := e.eval(c, n.Args[0])
+			return e.convert(c.st, v, T)
+		}
 	}
 	panic(fmt.Errorf("unsupported call form"))
 }
